@@ -1384,6 +1384,49 @@ GENERATORS.append(("LexMath", gen_lexmath))
 
 
 # ------------------------------------------------------------------ private tokens (C01/C02/C04 under arbitrary_precision)
+def gen_token_raw(lines, vd, visit_map_norm, de):
+    """the places that give the RawValue token its reading (`raw_value`): `KeyClassifier`'s RawValue arms, `visit_map`'s
+    RawValue arm, `raw::BoxedFromString` (seed = `deserialize_str`, a visitor with `visit_str` / `visit_string` only, both
+    accepting any string), `from_str` / `from_trait` (fresh `Deserializer`, `end()`), `de::Error::custom` = `make_error`
+    (position parsed back out of the message)"""
+    def squash(t): return re.sub(r"\s+", " ", re.sub(r"//[^\n]*", "", t or "")).strip()
+    body = fn_body(vd, r"impl<'de> Visitor<'de> for KeyClassifier \{")
+    if len(re.findall(r"crate::raw::TOKEN\s*=>\s*Ok\(KeyClass::RawValue\)", body or "")) != 2:
+        miss("de.token.raw.keyclassifier", "KeyClassifier no longer classifies the decoded key by equality with raw::TOKEN")
+    arm = ('#[cfg(feature = "raw_value")] Some(KeyClass::RawValue) => { let value = tri!(visitor.next_value_seed(crate::raw::BoxedFromString)); '
+           'crate::from_str(value.get()).map_err(de::Error::custom) }') in visit_map_norm
+    if not arm: miss("de.token.raw.visit_map", "ValueVisitor::visit_map: the KeyClass::RawValue arm differs from the transcribed one")
+    lines.append("/-- `ValueVisitor::visit_map`'s RawValue arm: one `next_value_seed(BoxedFromString)`, then `crate::from_str(value.get()).map_err(de::Error::custom)` -/")
+    lines.append("def rawTokenArmTranscribed : Bool := %s" % ("true" if arm else "false"))
+    rw = src("raw.rs")
+    seed = squash(fn_body(rw, r"impl<'de> DeserializeSeed<'de> for BoxedFromString \{"))
+    if "deserializer.deserialize_str(self)" not in seed:
+        miss("de.token.raw.seed", "BoxedFromString's seed is no longer deserialize_str(self)")
+    vis = fn_body(rw, r"impl<'de> Visitor<'de> for BoxedFromString \{") or ""
+    fns = sorted(re.findall(r"\bfn (\w+)", vis))
+    m = re.search(r'fn expecting\(&self, formatter: &mut fmt::Formatter\) -> fmt::Result \{\s*formatter\.write_str\("((?:[^"\\]|\\.)*)"\)', vis)
+    if fns != ["expecting", "visit_str", "visit_string"] or not m:
+        miss("de.token.raw.visitor", "BoxedFromString's visitor methods are %r, transcribed: expecting, visit_str, visit_string" % fns)
+    sq = squash(vis)
+    if "Ok(RawValue::from_owned(s.to_owned().into_boxed_str()))" not in sq or "Ok(RawValue::from_owned(s.into_boxed_str()))" not in sq:
+        miss("de.token.raw.visit_str", "BoxedFromString::visit_str / visit_string no longer accept every string as it is")
+    g = squash(fn_body(rw, r"pub fn get\(&self\) -> &str"))
+    if g != "{ &self.json }": miss("de.token.raw.get", "RawValue::get is no longer the stored text: %r" % g)
+    lines.append("/-- `BoxedFromString`'s `expecting` text (the tail of serde's `invalid type` message) -/")
+    lines.append("def boxedFromStringExpecting : List UInt8 := %s" % lean_bytes(rust_str_bytes(m.group(1)) if m else b""))
+    fs = squash(fn_body(de, r"pub fn from_str<'a, T>\(s: &'a str\) -> Result<T>"))
+    if fs != "{ from_trait(read::StrRead::new(s)) }": miss("de.token.raw.from_str", "from_str differs from the transcribed one: %r" % fs)
+    ft = squash(fn_body(de, r"fn from_trait<'de, R, T>\(read: R\) -> Result<T>"))
+    if ft != "{ let mut de = Deserializer::new(read); let value = tri!(de::Deserialize::deserialize(&mut de)); tri!(de.end()); Ok(value) }":
+        miss("de.token.raw.from_trait", "from_trait differs from the transcribed one: %r" % ft)
+    er = src("error.rs")
+    cu = squash(fn_body(er, r"fn custom<T: Display>\(msg: T\) -> Error"))
+    mk = squash(fn_body(er, r"fn make_error\(mut msg: String\) -> Error"))
+    if cu != "{ make_error(msg.to_string()) }" or "let (line, column) = parse_line_col(&mut msg).unwrap_or((0, 0));" not in mk \
+            or "code: ErrorCode::Message(msg.into_boxed_str()), line, column," not in mk:
+        miss("de.token.raw.custom", "de::Error::custom / make_error differ from the transcribed ones")
+
+
 def gen_token(lines):
     """number.rs / raw.rs `TOKEN`, and the places of value/de.rs, number.rs, de.rs that give the Number token its reading:
     `KeyClassifier::visit_str`, `ValueVisitor::visit_map`, `NumberFromString`, `end_map`"""
@@ -1423,6 +1466,7 @@ def gen_token(lines):
     fs = re.sub(r"\s+", " ", fn_body(de, r"impl FromStr for Number \{") or "")
     if "Deserializer::from_str(s) .parse_any_signed_number() .map(Into::into)" not in fs:
         miss("de.token.from_str", "Number::from_str is no longer parse_any_signed_number on the whole string")
+    gen_token_raw(lines, vd, norm, de)
 GENERATORS.append(("Token", gen_token))
 # ------------------------------------------------------------------ ser.rs: is every writer-facing call checked? (C13)
 def _close_paren(t, i):
